@@ -249,9 +249,12 @@ Print Assumptions C17_dispatch_gate.
 Require Verif.Tie.Vers.Code.
 Require Verif.Tie.Vers.Constraints.
 Require Verif.Tie.Vers.CoreAlternating.
+Require Verif.Tie.Vers.CoreContains.
 Require Verif.Tie.Vers.CoreDispatch.
 Require Verif.Tie.Vers.CoreGroup.
+Require Verif.Tie.Vers.CoreGroupLen.
 Require Verif.Tie.Vers.CoreGroupTie.
+Require Verif.Tie.Vers.CoreNormalize.
 Require Verif.Tie.Vers.CoreToRanges.
 Require Verif.Tie.Vers.Printers.
 Require Verif.Tie.Vers.Pypi.
@@ -266,18 +269,28 @@ Definition C17_tie_parseConstraints_finished := @Verif.Tie.Vers.Constraints.pars
 Definition C17_tie_parseConstraints_normalize := @Verif.Tie.Vers.Constraints.parseConstraints_normalize.
 Definition C17_tie_alternatingIntervals_no_panic := @Verif.Tie.Vers.CoreAlternating.alternatingIntervals_no_panic.
 Definition C17_tie_alternatingIntervals_total := @Verif.Tie.Vers.CoreAlternating.alternatingIntervals_total.
+Definition C17_tie_printers_len := @Verif.Tie.Vers.CoreContains.printers_len.
+Definition C17_tie_printers_len' := @Verif.Tie.Vers.CoreContains.printers_len'.
+Definition C17_tie_contains_tie := @Verif.Tie.Vers.CoreContains.contains_tie.
+Definition C17_tie_toRanges_no_panic := @Verif.Tie.Vers.CoreContains.toRanges_no_panic.
+Definition C17_tie_contains_no_panic := @Verif.Tie.Vers.CoreContains.contains_no_panic.
 Definition C17_tie_isPyPIPrerelease_tie := @Verif.Tie.Vers.CoreDispatch.isPyPIPrerelease_tie.
 Definition C17_tie_pypiContains_tie := @Verif.Tie.Vers.CoreDispatch.pypiContains_tie.
 Definition C17_tie_Contains_tie := @Verif.Tie.Vers.CoreDispatch.Contains_tie.
 Definition C17_tie_Contains_no_panic := @Verif.Tie.Vers.CoreDispatch.Contains_no_panic.
 Definition C17_tie_groupConstraintsIntoIntervals_no_panic := @Verif.Tie.Vers.CoreGroup.groupConstraintsIntoIntervals_no_panic.
 Definition C17_tie_groupConstraintsIntoIntervals_total := @Verif.Tie.Vers.CoreGroup.groupConstraintsIntoIntervals_total.
+Definition C17_tie_ensures_finished := @Verif.Tie.Vers.CoreGroupLen.ensures_finished.
 Definition C17_tie_alternatingIntervals_tie := @Verif.Tie.Vers.CoreGroupTie.alternatingIntervals_tie.
 Definition C17_tie_alternatingIntervals_tie_finished := @Verif.Tie.Vers.CoreGroupTie.alternatingIntervals_tie_finished.
 Definition C17_tie_groupConstraintsIntoIntervals_tie := @Verif.Tie.Vers.CoreGroupTie.groupConstraintsIntoIntervals_tie.
 Definition C17_tie_groupConstraintsIntoIntervals_tie_finished := @Verif.Tie.Vers.CoreGroupTie.groupConstraintsIntoIntervals_tie_finished.
+Definition C17_tie_normalizeConstraints_no_panic := @Verif.Tie.Vers.CoreNormalize.normalizeConstraints_no_panic.
+Definition C17_tie_collect_tie := @Verif.Tie.Vers.CoreNormalize.collect_tie.
+Definition C17_tie_ccmp_le_total := @Verif.Tie.Vers.CoreNormalize.ccmp_le_total.
+Definition C17_tie_normalize_go_tie := @Verif.Tie.Vers.CoreNormalize.normalize_go_tie.
+Definition C17_tie_normalizeConstraints_tie := @Verif.Tie.Vers.CoreNormalize.normalizeConstraints_tie.
 Definition C17_tie_toRanges_tie := @Verif.Tie.Vers.CoreToRanges.toRanges_tie.
-Definition C17_tie_toRanges_no_panic := @Verif.Tie.Vers.CoreToRanges.toRanges_no_panic.
 Definition C17_tie_toRanges_normalize := @Verif.Tie.Vers.CoreToRanges.toRanges_normalize.
 Definition C17_tie_alpine_printer_tie := @Verif.Tie.Vers.Printers.alpine_printer_tie.
 Definition C17_tie_cargo_printer_tie := @Verif.Tie.Vers.Printers.cargo_printer_tie.
@@ -303,6 +316,6 @@ Definition C17_tie_valid_tie := @Verif.Tie.Vers.Valid.valid_tie.
 Definition C17_tie_valid_finished := @Verif.Tie.Vers.Valid.valid_finished.
 Definition C17_tie_scheme_tie := @Verif.Tie.Vers.Valid.scheme_tie.
 Definition C17_tie_scheme_finished := @Verif.Tie.Vers.Valid.scheme_finished.
-Definition C17_ties_all := (C17_tie_Contains_no_panic, (C17_tie_Contains_tie, (C17_tie_alpine_printer_tie, (C17_tie_alternatingIntervals_no_panic, (C17_tie_alternatingIntervals_tie, (C17_tie_alternatingIntervals_tie_finished, (C17_tie_alternatingIntervals_total, (C17_tie_cargo_printer_tie, (C17_tie_constraintsIncludePrerelease_finished, (C17_tie_constraintsIncludePrerelease_tie, (C17_tie_containsPrereleaseMarkers_finished, (C17_tie_containsPrereleaseMarkers_tie, (C17_tie_debian_printer_tie, (C17_tie_ensureVPrefix_tie, (C17_tie_gem_printer_tie, (C17_tie_golang_printer_tie, (C17_tie_groupConstraintsIntoIntervals_no_panic, (C17_tie_groupConstraintsIntoIntervals_tie, (C17_tie_groupConstraintsIntoIntervals_tie_finished, (C17_tie_groupConstraintsIntoIntervals_total, (C17_tie_isPyPIPrerelease_tie, (C17_tie_maven_printer_tie, (C17_tie_npm_printer_tie, (C17_tie_nuget_printer_tie, (C17_tie_parseConstraint_finished, (C17_tie_parseConstraint_tie, (C17_tie_parseConstraints_finished, (C17_tie_parseConstraints_normalize, (C17_tie_parseConstraints_tie, (C17_tie_printers_keys, (C17_tie_printers_match_style_table, (C17_tie_printers_on_model_interval, (C17_tie_printers_texts, (C17_tie_printers_texts_normalize, (C17_tie_pypiContains_tie, (C17_tie_pypi_printer_tie, (C17_tie_rpm_printer_tie, (C17_tie_scheme_finished, (C17_tie_scheme_tie, (C17_tie_semver_printer_tie, (C17_tie_shouldMergeConstraints_tie, (C17_tie_toRanges_no_panic, (C17_tie_toRanges_normalize, (C17_tie_toRanges_tie, (C17_tie_valid_finished, C17_tie_valid_tie))))))))))))))))))))))))))))))))))))))))))))).
+Definition C17_ties_all := (C17_tie_Contains_no_panic, (C17_tie_Contains_tie, (C17_tie_alpine_printer_tie, (C17_tie_alternatingIntervals_no_panic, (C17_tie_alternatingIntervals_tie, (C17_tie_alternatingIntervals_tie_finished, (C17_tie_alternatingIntervals_total, (C17_tie_cargo_printer_tie, (C17_tie_ccmp_le_total, (C17_tie_collect_tie, (C17_tie_constraintsIncludePrerelease_finished, (C17_tie_constraintsIncludePrerelease_tie, (C17_tie_containsPrereleaseMarkers_finished, (C17_tie_containsPrereleaseMarkers_tie, (C17_tie_contains_no_panic, (C17_tie_contains_tie, (C17_tie_debian_printer_tie, (C17_tie_ensureVPrefix_tie, (C17_tie_ensures_finished, (C17_tie_gem_printer_tie, (C17_tie_golang_printer_tie, (C17_tie_groupConstraintsIntoIntervals_no_panic, (C17_tie_groupConstraintsIntoIntervals_tie, (C17_tie_groupConstraintsIntoIntervals_tie_finished, (C17_tie_groupConstraintsIntoIntervals_total, (C17_tie_isPyPIPrerelease_tie, (C17_tie_maven_printer_tie, (C17_tie_normalizeConstraints_no_panic, (C17_tie_normalizeConstraints_tie, (C17_tie_normalize_go_tie, (C17_tie_npm_printer_tie, (C17_tie_nuget_printer_tie, (C17_tie_parseConstraint_finished, (C17_tie_parseConstraint_tie, (C17_tie_parseConstraints_finished, (C17_tie_parseConstraints_normalize, (C17_tie_parseConstraints_tie, (C17_tie_printers_keys, (C17_tie_printers_len, (C17_tie_printers_len', (C17_tie_printers_match_style_table, (C17_tie_printers_on_model_interval, (C17_tie_printers_texts, (C17_tie_printers_texts_normalize, (C17_tie_pypiContains_tie, (C17_tie_pypi_printer_tie, (C17_tie_rpm_printer_tie, (C17_tie_scheme_finished, (C17_tie_scheme_tie, (C17_tie_semver_printer_tie, (C17_tie_shouldMergeConstraints_tie, (C17_tie_toRanges_no_panic, (C17_tie_toRanges_normalize, (C17_tie_toRanges_tie, (C17_tie_valid_finished, C17_tie_valid_tie))))))))))))))))))))))))))))))))))))))))))))))))))))))).
 Print Assumptions C17_ties_all.
 (* ====== ties to the source: END ====== *)
